@@ -62,7 +62,10 @@ St == [kind |-> kind, ditems |-> ditems, litems |-> litems, parent |-> parent,
 Alive(s) == {n \in Nodes : s.kind[n] # "free"}
 FreeSet(s) == {n \in Nodes : s.kind[n] = "free"}
 MinOf(S) == CHOOSE x \in S : \A y \in S : x <= y
-IsDictLike(s, n) == s.kind[n] \in {"dict", "obj", "objb", "objc"}
+IsDictLike(s, n) == s.kind[n] \in {"dict", "tdict", "obj", "objb", "objc"}
+\* "tdict": a pg.Dict bound to a value spec with one dynamic key admitting any value: it behaves like a schemaless
+\* dict (except that popitem() is refused) but takes the typed code paths (e.g. pass-through construction in clone)
+IsPlainDict(s, n) == s.kind[n] \in {"dict", "tdict"}
 IsObj(s, n) == s.kind[n] \in {"obj", "objb", "objc"}
 PH == 150                        \* a search-space placeholder leaf (pg.oneof)
 RF == 160                        \* an explicit reference leaf (pg.Ref to a shared non-symbolic object)
@@ -323,14 +326,14 @@ DictSet(n, k, vd) ==                       \* d[k] = v   /  d.k = v  /  obj.x = 
 
 DictDel(n, k) ==                           \* del d[k]
   /\ act' = <<"DictDel", n, k>>
-  /\ "dict" \in Acts /\ kind[n] = "dict"
+  /\ "dict" \in Acts /\ IsPlainDict(St, n)
   /\ IF TreatSealed(St, n) \/ ~AccW(St, n) THEN Fail("WPE")
      ELSE IF KeyIdx(St, n, k) = 0 THEN Fail("KeyError")
      ELSE Done(WriteD(St, n, k, MISSING), n, 0)
 
 DictPop(n, k, hasDefault) ==               \* d.pop(k[, None])
   /\ act' = <<"DictPop", n, k, hasDefault>>
-  /\ "dict" \in Acts /\ kind[n] = "dict"
+  /\ "dict" \in Acts /\ IsPlainDict(St, n)
   /\ LET i == KeyIdx(St, n, k) IN
      IF i = 0 THEN (IF hasDefault THEN Commit(St, Ok(PNONE), {}) ELSE Fail("KeyError"))
      ELSE IF TreatSealed(St, n) THEN Fail("WPE")
@@ -338,8 +341,9 @@ DictPop(n, k, hasDefault) ==               \* d.pop(k[, None])
 
 DictPopItem(n) ==                          \* d.popitem()
   /\ act' = <<"DictPopItem", n>>
-  /\ "dict" \in Acts /\ kind[n] = "dict"
-  /\ IF TreatSealed(St, n) THEN Fail("WPE")
+  /\ "dict" \in Acts /\ IsPlainDict(St, n)
+  /\ IF kind[n] = "tdict" THEN Fail("ValueError")           \* popitem() is not offered on a dict with a value spec
+     ELSE IF TreatSealed(St, n) THEN Fail("WPE")
      ELSE IF ditems[n] = <<>> THEN Fail("KeyError")
      ELSE LET kv == ditems[n][Len(ditems[n])] IN Done(WriteD(St, n, kv[1], MISSING), n, kv[2])
 
@@ -350,12 +354,12 @@ ClearD(s, n) == IF s.ditems[n] = <<>> THEN [ok |-> TRUE, s |-> s, ups |-> NoUpd]
                      IN [ok |-> TRUE, s |-> b.s, ups |-> a.ups \o b.ups]
 DictClear(n) ==                            \* d.clear()
   /\ act' = <<"DictClear", n>>
-  /\ "dict" \in Acts /\ kind[n] = "dict"
+  /\ "dict" \in Acts /\ IsPlainDict(St, n)
   /\ IF TreatSealed(St, n) THEN Fail("WPE") ELSE Done(ClearD(St, n), n, 0)
 
 DictSetDefault(n, k, vd) ==                \* d.setdefault(k, v)
   /\ act' = <<"DictSetDefault", n, k, vd>>
-  /\ "dict" \in Acts /\ kind[n] = "dict" /\ ~IsRef(vd)
+  /\ "dict" \in Acts /\ IsPlainDict(St, n) /\ ~IsRef(vd)
   /\ (TreatSealed(St, n) \/ AccW(St, n) \/ KeyIdx(St, n, k) # 0)   \* as for remove()
   /\ LET i == KeyIdx(St, n, k) IN
      IF i # 0 THEN Commit(St, Ok(ditems[n][i][2]), {})
@@ -364,7 +368,7 @@ DictSetDefault(n, k, vd) ==                \* d.setdefault(k, v)
 
 DictUpdate(n, kvs, inplaceOr) ==           \* d.update({..})   /   d |= {..}
   /\ act' = <<"DictUpdate", n, kvs, inplaceOr>>
-  /\ (IF inplaceOr THEN "inplace" ELSE "dict") \in Acts /\ kind[n] = "dict"
+  /\ (IF inplaceOr THEN "inplace" ELSE "dict") \in Acts /\ IsPlainDict(St, n)
   /\ IF TreatSealed(St, n) THEN Fail("WPE") ELSE Done(WriteDSeq(St, n, kvs), n, 0)
 
 ---------------------------------------------------------------------------
@@ -546,7 +550,8 @@ JsonRoundTrip(n) ==                        \* pg.from_json(pg.to_json(n)): a fre
   /\ Cardinality(FreeSet(St)) >= Cardinality(Desc(St, n))
   /\ LET c == CloneInto(St, n)
          fresh == Desc(c.s, c.root)
-         s1 == [c.s EXCEPT !.sealed = [m \in Nodes |-> IF m \in fresh THEN FALSE ELSE c.s.sealed[m]],
+         s1 == [c.s EXCEPT !.kind = [m \in Nodes |-> IF m \in fresh /\ c.s.kind[m] = "tdict" THEN "dict" ELSE c.s.kind[m]],
+                           !.sealed = [m \in Nodes |-> IF m \in fresh THEN FALSE ELSE c.s.sealed[m]],
                            !.accw = [m \in Nodes |-> IF m \in fresh THEN TRUE ELSE c.s.accw[m]],
                            !.subs = [m \in Nodes |-> IF m \in fresh THEN IsObj(c.s, m) ELSE c.s.subs[m]]]
      IN Commit(s1, Ok(c.root), {})
@@ -565,7 +570,7 @@ Seal(n, b) ==                              \* n.seal(b): recursive
 
 SetAccW(n, b) ==                           \* n.set_accessor_writable(b) (this node only)
   /\ act' = <<"SetAccW", n, b>>
-  /\ "flags" \in Acts /\ kind[n] \in {"dict", "list"}
+  /\ "flags" \in Acts /\ kind[n] \in {"dict", "tdict", "list"}
   /\ accw[n] # b
   /\ Commit([St EXCEPT !.accw[n] = b], Ok(0), {})
 
@@ -627,6 +632,7 @@ IK_List == <<"list">>
 IK_Obj == <<"obj">>
 IK_ObjList == <<"obj", "list">>
 IK_ObjbDict == <<"objb", "dict">>
+IK_TDictList == <<"tdict", "list">>
 
 Init ==
   /\ kind = [n \in Nodes |-> IF n <= Len(InitKinds) THEN InitKinds[n] ELSE "free"]
@@ -650,12 +656,12 @@ Has(f) == f \in Acts
 NextDict(n) ==
   /\ IsDictLike(St, n)
   /\ \/ Has("dict") /\ \E k \in P(Keys), vd \in P(VD \cup {MISSING}) : DictSet(n, k, vd)
-     \/ Has("dict") /\ kind[n] = "dict" /\
+     \/ Has("dict") /\ IsPlainDict(St, n) /\
           (\/ \E k \in P(Keys) : DictDel(n, k) \/ \E d \in P(BOOLEAN) : DictPop(n, k, d)
            \/ DictPopItem(n) \/ DictClear(n)
            \/ \E k \in P(Keys), vd \in P(Leafs) : DictSetDefault(n, k, vd)
            \/ \E kvs \in P(KVSeqs) : DictUpdate(n, kvs, FALSE))
-     \/ Has("inplace") /\ kind[n] = "dict" /\ \E kvs \in P(KVSeqs) : DictUpdate(n, kvs, TRUE)
+     \/ Has("inplace") /\ IsPlainDict(St, n) /\ \E kvs \in P(KVSeqs) : DictUpdate(n, kvs, TRUE)
 NextList(n) ==
   /\ kind[n] = "list"
   /\ \/ Has("list") /\
